@@ -81,7 +81,7 @@ func isDomainValid(domain string) bool {
 		return false
 	}
 
-	invalidRunes := []rune{'@', '/'}
+	invalidRunes := []rune{'@', '/', '\'', '"', '<', '>', '&'}
 	return strings.IndexFunc(domain, isInvalid(invalidRunes)) < 0
 }
 
